@@ -235,10 +235,6 @@ Hypothesis Hpriv : DiffModel.ignore_private c = true.
 Notation D := (diff_io H udiff skip excl c rep pairs).
 Notation hvv := (hv H c rep).
 
-Definition WBio (t1 : value) : Prop :=
-  forall t2 p1 p2, wf t1 = true -> wf t2 = true -> io_guard H c rep pairs t1 ->
-    W1 (fst (D t1 t2 p1 p2)) <= count t1 /\ W2 (fst (D t1 t2 p1 p2)) <= count t2.
-
 (* ---- one list / tuple level ---- *)
 Section Level.
 Variables xs ys : list value.
@@ -249,8 +245,8 @@ Let f1 (h : pystr) : nat := cxo xs (first_of (indexes_of h hh1 0)).
 Let f2 (h : pystr) : nat := cxo ys (first_of (indexes_of h hh2 0)).
 Let recs := map D xs.
 
-Hypothesis HX : forall i x, nth_error xs i = Some x -> forall y q1 q2, wf y = true ->
-  W1 (fst (D x y q1 q2)) <= count x /\ W2 (fst (D x y q1 q2)) <= count y.
+Hypothesis HX : forall i x, nth_error xs i = Some x -> forall y q2, wf y = true ->
+  W1 (fst (D x y (snoc p1 (PIdx i)) q2)) <= count x /\ W2 (fst (D x y (snoc p1 (PIdx i)) q2)) <= count y.
 Hypothesis HY : forall y, In y ys -> wf y = true.
 (* a paired removed hash is not repeated in t1 (only needed when repetitions are reported) *)
 Hypothesis HP : rep = true -> forall a rem r, partner H c rep pairs xs ys p1 a rem = Some r ->
@@ -302,7 +298,7 @@ Proof.
   - destruct (partner_facts a rem r Ep) as [Hr Hrem].
     destruct (item_at1 r Hr) as [x [Ex Fx]].
     unfold item2. rewrite Ey. unfold recs. rewrite (nth_rec_map' D xs _ x Ex). cbn [fst snd].
-    destruct (HX _ x Ex y (snoc p1 (PIdx (first_of (indexes_of r hh1 0)))) (snoc p2 (PIdx (first_of (indexes_of a hh2 0)))) (HY y Iy)) as [A B].
+    destruct (HX _ x Ex y (snoc p2 (PIdx (first_of (indexes_of a hh2 0)))) (HY y Iy)) as [A B].
     pose proof (sumf_remove_le f1 r rem Hrem). lia.
   - cbn [fst snd]. unfold item2. rewrite Ey.
     destruct (W_add_block (rpt skip KIterAdd (snoc p1 (PIdx (first_of (indexes_of a hh2 0)))) (snoc p2 (PIdx (first_of (indexes_of a hh2 0)))) None (Some y) None)
@@ -320,7 +316,7 @@ Proof.
     destruct (HP Hrep a rem r Ep) as [i0 Ei].
     destruct (item_at1 r Hr) as [x [Ex Fx]]. rewrite Ei in *. cbn [first_of hd] in *.
     unfold item2. rewrite Ey. cbn [fold_right]. unfold recs. rewrite (nth_rec_map' D xs _ x Ex). cbn [fst snd].
-    match goal with |- context [D x y ?q1 ?q2] => destruct (HX _ x Ex y q1 q2 (HY y Iy)) as [A B];
+    match goal with |- context [D x y ?q1 ?q2] => destruct (HX _ x Ex y q2 (HY y Iy)) as [A B];
       pose proof (W1_app2 (D x y q1 q2) ([], [])); pose proof (W2_app2 (D x y q1 q2) ([], [])) end.
     cbn [fst] in *. rewrite W1_nil, W2_nil in *.
     pose proof (sumf_remove_le f1 r rem Hrem). lia.
@@ -552,11 +548,12 @@ Proof.
   cbn [cnt_o] in *. unfold sumf in *. lia.
 Qed.
 
-Definition WBv (v1 : value) : Prop :=
-  forall v2 q1 q2, wf v1 = true -> wf v2 = true ->
-    W1 (fst (D v1 v2 q1 q2)) <= count v1 /\ W2 (fst (D v1 v2 q1 q2)) <= count v2.
+Definition WBv (k : atom) (v1 : value) : Prop :=
+  forall k' v2, py_eq k k' = true -> wf v1 = true -> wf v2 = true ->
+    W1 (fst (D v1 v2 (snoc p1 (PKey k')) (snoc p2 (PKey k')))) <= count v1 /\
+    W2 (fst (D v1 v2 (snoc p1 (PKey k')) (snoc p2 (PKey k')))) <= count v2.
 
-Lemma io_common_w1 l : Forall (fun kv => WBv (snd kv)) l -> (forall kv, In kv l -> In kv kvs1) ->
+Lemma io_common_w1 l : Forall (fun kv => WBv (fst kv) (snd kv)) l -> (forall kv, In kv l -> In kv kvs1) ->
   W1 (fst (io_common_s kvs2 K2 p1 p2 l)) <=
   sumf (fun kv => if keep (fst kv) && mem_atom (fst kv) K2 then count (snd kv) else 0) l.
 Proof.
@@ -566,20 +563,20 @@ Proof.
   fold (sumf (fun kv => if keep (fst kv) && mem_atom (fst kv) K2 then count (snd kv) else 0) r).
   destruct (keep k); cbn [andb]; [|unfold sumf in *; lia].
   destruct (find (py_eq k) K2) as [k'|] eqn:F; [|unfold sumf in *; lia].
-  destruct (find_mem _ _ _ F) as [Mm _]. rewrite Mm.
+  destruct (find_mem _ _ _ F) as [Mm [Ekk' _]]. rewrite Mm.
   destruct (assoc k' kvs2) as [v2|] eqn:Ea; [|unfold sumf in *; lia].
   match goal with |- W1 (fst (app2 ?a ?b)) <= _ => pose proof (W1_app2 a b) end.
   apply assoc_In in Ea. destruct Ea as [k'' [Hk'' _]].
   assert (Wv1 : wf v1 = true) by (eapply wf_dict_values; [exact Wf1 | apply Hin; left; reflexivity]).
   assert (Wv2 : wf v2 = true) by (eapply wf_dict_values; [exact Wf2 | exact Hk'']).
-  cbn [snd] in Hkv. destruct (Hkv v2 (snoc p1 (PKey k')) (snoc p2 (PKey k')) Wv1 Wv2) as [B _].
+  cbn [fst snd] in Hkv. destruct (Hkv k' v2 Ekk' Wv1 Wv2) as [B _].
   unfold sumf in *. lia.
 Qed.
 
 Definition S2io (l : list (atom * value)) : nat :=
   sumf (fun kv => if keep (fst kv) && mem_atom (fst kv) (map fst l) then count (snd kv) else 0) kvs2.
 
-Lemma io_common_w2 l : Forall (fun kv => WBv (snd kv)) l -> (forall kv, In kv l -> In kv kvs1) ->
+Lemma io_common_w2 l : Forall (fun kv => WBv (fst kv) (snd kv)) l -> (forall kv, In kv l -> In kv kvs1) ->
   nodup_atoms (map fst l) = true ->
   W2 (fst (io_common_s kvs2 K2 p1 p2 l)) <= S2io l.
 Proof.
@@ -602,7 +599,7 @@ Proof.
   apply assoc_In in Ea. destruct Ea as [k'' [Hk'' E'']].
   assert (Wv1 : wf v1 = true) by (eapply wf_dict_values; [exact Wf1 | apply Hin; left; reflexivity]).
   assert (Wv2 : wf v2 = true) by (eapply wf_dict_values; [exact Wf2 | exact Hk'']).
-  cbn [snd] in Hkv. destruct (Hkv v2 (snoc p1 (PKey k')) (snoc p2 (PKey k')) Wv1 Wv2) as [_ B].
+  cbn [fst snd] in Hkv. destruct (Hkv k' v2 E Wv1 Wv2) as [_ B].
   assert (Ekk : py_eq k'' k = true).
   { eapply py_eq_trans; [exact E''|]. rewrite py_eq_sym. exact E. }
   assert (Step : S2io r + count v2 <= S2io ((k, v1) :: r)).
@@ -619,7 +616,7 @@ Proof.
   lia.
 Qed.
 
-Lemma io_dict_w : Forall (fun kv => WBv (snd kv)) kvs1 ->
+Lemma io_dict_w : Forall (fun kv => WBv (fst kv) (snd kv)) kvs1 ->
   W1 (fst (io_dict_s kvs1 kvs2 p1 p2)) <= count (VDict kvs1) /\
   W2 (fst (io_dict_s kvs1 kvs2 p1 p2)) <= count (VDict kvs2).
 Proof.
@@ -711,22 +708,34 @@ Proof.
   intros [-> | ->] W Hx; cbn [wf] in W; rewrite forallb_forall in W; apply W; exact Hx.
 Qed.
 
+(* ---- the induction, for any guard family that is inherited along the recursion ---- *)
+Section Gen.
+Variable GP : value -> path -> Prop.
+Hypothesis GP_item : forall v xs p i x, (v = VList xs \/ v = VTuple xs) -> GP v p -> nth_error xs i = Some x -> GP x (snoc p (PIdx i)).
+Hypothesis GP_value : forall kvs p k v k', GP (VDict kvs) p -> In (k, v) kvs -> py_eq k k' = true -> GP v (snoc p (PKey k')).
+Hypothesis GP_partner : forall v xs ys p, (v = VList xs \/ v = VTuple xs) -> GP v p -> rep = true ->
+  forall a rem r, partner H c rep pairs xs ys p a rem = Some r -> exists i, indexes_of r (h1 H c rep xs) 0 = [i].
+
+Definition WBg (t1 : value) : Prop :=
+  forall t2 p1 p2, wf t1 = true -> wf t2 = true -> GP t1 p1 ->
+    W1 (fst (D t1 t2 p1 p2)) <= count t1 /\ W2 (fst (D t1 t2 p1 p2)) <= count t2.
+
 Lemma seq_level xs ys v w p1 p2 : (v = VList xs \/ v = VTuple xs) -> (w = VList ys \/ w = VTuple ys) ->
-  Forall WBio xs -> wf v = true -> wf w = true -> io_guard H c rep pairs v ->
+  Forall WBg xs -> wf v = true -> wf w = true -> GP v p1 ->
   W1 (fst (iter_deephash H skip c rep pairs (map D xs) xs ys p1 p2)) <= count v /\
   W2 (fst (iter_deephash H skip c rep pairs (map D xs) xs ys p1 p2)) <= count w.
 Proof.
   intros Hv Hw IH Wf1 Wf2 G.
   destruct (iter_w xs ys p1 p2) as [A B].
-  - intros i x Ex y q1 q2 Wy. pose proof (nth_error_In _ _ Ex) as Hx.
-    rewrite Forall_forall in IH. apply (IH x Hx y q1 q2 (wf_items xs v x Hv Wf1 Hx) Wy (guard_item xs v x Hv G Hx)).
+  - intros i x Ex y q2 Wy. pose proof (nth_error_In _ _ Ex) as Hx.
+    rewrite Forall_forall in IH. apply (IH x Hx y (snoc p1 (PIdx i)) q2 (wf_items xs v x Hv Wf1 Hx) Wy (GP_item v xs p1 i x Hv G Ex)).
   - intros y Hy. apply (wf_items ys w y Hw Wf2 Hy).
-  - apply (guard_partner xs ys v p1 Hv G).
+  - apply (GP_partner v xs ys p1 Hv G).
   - assert (count v = S (sumc xs)) by (destruct Hv as [-> | ->]; reflexivity).
     assert (count w = S (sumc ys)) by (destruct Hw as [-> | ->]; reflexivity). lia.
 Qed.
 
-Theorem io_weights : forall t1, WBio t1.
+Theorem io_weights_gen : forall t1, WBg t1.
 Proof.
   induction t1 as [a|xs IH|xs IH|kvs IH|xs|xs] using value_ind'; intros t2 p1 p2 Wf1 Wf2 G;
     (destruct (skip p1) eqn:Hs; [rewrite dio_skip by exact Hs; cbn [fst]; rewrite W1_nil, W2_nil; lia|]);
@@ -741,11 +750,64 @@ Proof.
   - rewrite dio_list_s by exact Hs. apply (seq_level xs xs0 _ _ p1 p2 (or_introl eq_refl) (or_introl eq_refl) IH Wf1 Wf2 G).
   - rewrite dio_tuple_s by exact Hs. apply (seq_level xs xs0 _ _ p1 p2 (or_intror eq_refl) (or_intror eq_refl) IH Wf1 Wf2 G).
   - rewrite dio_dict_s by exact Hs. apply io_dict_w; try assumption.
-    rewrite Forall_forall in *. intros kv Hkv v2 q1 q2 Wv1 Wv2. apply (IH kv Hkv v2 q1 q2 Wv1 Wv2 (guard_value kvs kv G Hkv)).
+    rewrite Forall_forall in *. intros [k v] Hkv k' v2 Ek Wv1 Wv2. cbn [fst snd] in *.
+    apply (IH (k, v) Hkv v2 (snoc p1 (PKey k')) (snoc p2 (PKey k')) Wv1 Wv2 (GP_value kvs p1 k v k' G Hkv Ek)).
   - rewrite dio_set_s by exact Hs. cbn [fst count].
     destruct (W_le_w _ (diff_set_plain (hatom_io H c rep) xs xs0 p1 p2)). destruct (diff_set_w (hatom_io H c rep) skip xs xs0 p1 p2). lia.
   - rewrite dio_frozen_s by exact Hs. cbn [fst count].
     destruct (W_le_w _ (diff_set_plain (hatom_io H c rep) xs xs0 p1 p2)). destruct (diff_set_w (hatom_io H c rep) skip xs xs0 p1 p2). lia.
+Qed.
+End Gen.
+
+(* instance 1: the guard on the inputs *)
+Definition WBio (t1 : value) : Prop :=
+  forall t2 p1 p2, wf t1 = true -> wf t2 = true -> io_guard H c rep pairs t1 ->
+    W1 (fst (D t1 t2 p1 p2)) <= count t1 /\ W2 (fst (D t1 t2 p1 p2)) <= count t2.
+
+Theorem io_weights : forall t1, WBio t1.
+Proof.
+  intros t1 t2 p1 p2 Wf1 Wf2 G.
+  apply (io_weights_gen (fun v _ => io_guard H c rep pairs v)); try assumption.
+  - intros v xs p i x Hv Gv Ex. apply (guard_item xs v x Hv Gv (nth_error_In _ _ Ex)).
+  - intros kvs p k v k' Gv Hin _. apply (guard_value kvs (k, v) Gv Hin).
+  - intros v xs ys p Hv Gv. apply (guard_partner xs ys v p Hv Gv).
+Qed.
+
+(* instance 2: every pair the oracle lists at a level that can be reached points at an unrepeated removed item *)
+Inductive reach : value -> path -> list value -> Prop :=
+| reach_list xs : reach (VList xs) [] xs
+| reach_tuple xs : reach (VTuple xs) [] xs
+| reach_in_list xs i x q zs : nth_error xs i = Some x -> reach x q zs -> reach (VList xs) (PIdx i :: q) zs
+| reach_in_tuple xs i x q zs : nth_error xs i = Some x -> reach x q zs -> reach (VTuple xs) (PIdx i :: q) zs
+| reach_in_dict kvs k v k' q zs : In (k, v) kvs -> py_eq k k' = true -> reach v q zs -> reach (VDict kvs) (PKey k' :: q) zs.
+
+Definition level_ok (xs : list value) (ps : list (nat * nat)) : bool :=
+  forallb (fun ji => match nth_error (h1 H c rep xs) (snd ji) with
+                     | Some r => Nat.eqb (HashModel.count r (h1 H c rep xs)) 1
+                     | None => true
+                     end) ps.
+Definition pairs_unrep (t1 : value) (p1 : path) : Prop :=
+  forall q zs, reach t1 q zs -> level_ok zs (pairs (p1 ++ q)) = true.
+
+Theorem io_weights_pairs : forall t1 t2 p1 p2, wf t1 = true -> wf t2 = true -> pairs_unrep t1 p1 ->
+  W1 (fst (D t1 t2 p1 p2)) <= count t1 /\ W2 (fst (D t1 t2 p1 p2)) <= count t2.
+Proof.
+  intros t1 t2 p1 p2 Wf1 Wf2 G.
+  apply (io_weights_gen pairs_unrep); try assumption.
+  - intros v xs p i x Hv Gv Ex q zs R. unfold snoc. rewrite <- app_assoc. cbn [app]. apply Gv.
+    destruct Hv as [-> | ->]; [eapply reach_in_list | eapply reach_in_tuple]; eassumption.
+  - intros kvs p k v k' Gv Hin Ek q zs R. unfold snoc. rewrite <- app_assoc. cbn [app]. apply Gv.
+    eapply reach_in_dict; eassumption.
+  - intros v xs ys p Hv Gv _ a rem r Ep.
+    assert (L : level_ok xs (pairs p) = true).
+    { rewrite <- (app_nil_r p). apply Gv. destruct Hv as [-> | ->]; constructor. }
+    unfold partner in Ep. destruct (find _ (pairs p)) as [ji|] eqn:F; [|discriminate].
+    apply find_some in F. destruct F as [Hji _].
+    unfold level_ok in L. rewrite forallb_forall in L. specialize (L ji Hji).
+    destruct (nth_error (h1 H c rep xs) (snd ji)) as [r'|] eqn:En; [|discriminate].
+    destruct (mem_h r' rem); [|discriminate]. injection Ep as <-.
+    apply Nat.eqb_eq in L. rewrite <- (indexes_length r' _ 0) in L.
+    destruct (indexes_of r' (h1 H c rep xs) 0) as [|i [|j l]]; try discriminate L. exists i. reflexivity.
 Qed.
 
 End IOW.
@@ -858,4 +920,88 @@ Proof.
   destruct deep_distance_io_rep_refuted as [A [B [C [D0 E]]]].
   repeat split; try assumption; try lia.
   intros xs ys [= <-] [= <-]. exact C.
+Qed.
+
+(* ---------- the guard on the pairing itself ----------
+   [pairs_unrep]: at every list / tuple reachable in t1, every pair the oracle lists points at a removed item whose hash
+   occurs once there.  Implied by each disjunct of [io_guard] for report_repetition=True and much weaker than
+   [uniq_items]: repeated items that are not paired (reported as removed or as repetition changes) are allowed. *)
+Theorem deep_distance_io_range_pairs :
+  forall H udiff skip excl c rep pairs incl cutoff t1 t2 n m,
+    DiffModel.ignore_private c = true -> wf t1 = true -> wf t2 = true ->
+    pairs_unrep H c rep pairs t1 [] ->
+    tcs_ok incl (fst (diff_io H udiff skip excl c rep pairs t1 t2 [] [])) = true ->
+    deep_distance_of_diff_io H udiff skip excl c rep pairs incl cutoff t1 t2 = RFrac n m ->
+    0 < n /\ n <= m.
+Proof.
+  intros H udiff skip excl c rep pairs incl cutoff t1 t2 n m P Wf1 Wf2 G T E.
+  unfold deep_distance_of_diff_io in E. split; [eapply rough_frac_positive; exact E|].
+  unfold rough_distance in E.
+  destruct (root_numeric (RVal t1) (RVal t2) cutoff); [discriminate|].
+  destruct (item_length _) as [[|k]|e] eqn:L; try discriminate.
+  injection E as <- <-. cbn [root_count].
+  pose proof (io_ops_bound incl _ (snd (diff_io H udiff skip excl c rep pairs t1 t2 [] [])) T _ L) as B.
+  destruct (io_weights_pairs H udiff skip excl c rep pairs P t1 t2 [] [] Wf1 Wf2 G) as [A1' A2']. lia.
+Qed.
+
+(* the refuted witness is outside it, and it is satisfiable where [uniq_items] fails:
+   [[1,2],7,7] vs [[1,2,3],7], items 0 paired, the repeated 7 is a repetition change *)
+Definition exp_t1 : value := VList [VList [I 1; I 2]; I 7; I 7].
+Definition exp_t2 : value := VList [VList [I 1; I 2; I 3]; I 7].
+Example pairs_unrep_examples :
+  level_ok hexhash ex_cfg_io true (repeat (VList [I 1]) 8) (k28_pairs []) = false /\
+  uniq_items hexhash ex_cfg_io true exp_t1 = false /\
+  pairs_unrep hexhash ex_cfg_io true k28_pairs exp_t1 [] /\
+  deep_distance_of_diff_io hexhash (fun _ _ => []) (fun _ => false) (fun _ => false) ex_cfg_io true k28_pairs
+    (fun _ _ => true) PrimFloat.one exp_t1 exp_t2 = RFrac 2 12.
+Proof.
+  split; [vm_compute; reflexivity|]. split; [vm_compute; reflexivity|]. split; [|vm_compute; reflexivity].
+  intros q zs R. destruct q as [|k q]; [|reflexivity].
+  inversion R; subst. vm_compute. reflexivity.
+Qed.
+
+Theorem pair_distance_rep_range_pairs :
+  forall H udiff skip excl c pairs incl cutoff x y n m,
+    DiffModel.ignore_private c = true -> wf x = true -> wf y = true ->
+    pairs_unrep H c true pairs x [] ->
+    tcs_ok incl (fst (diff_io H udiff skip excl c true pairs x y [] [])) = true ->
+    pair_distance H udiff skip excl c true pairs incl cutoff x y = RFrac n m ->
+    0 < n /\ n <= m.
+Proof.
+  intros H udiff skip excl c pairs incl cutoff x y n m P Wx Wy G T E.
+  apply (deep_distance_io_range_pairs H udiff skip excl c true pairs incl cutoff x y n m P Wx Wy G T).
+  unfold pair_distance, run_diff_io in E. unfold deep_distance_of_diff_io.
+  destruct (diff_io H udiff skip excl c true pairs x y [] []) as [es rs]. exact E.
+Qed.
+
+(* nothing paired: the guard holds trivially *)
+Lemma pairs_unrep_unpaired H c rep t1 p1 : pairs_unrep H c rep (fun _ => []) t1 p1.
+Proof. intros q zs _. reflexivity. Qed.
+
+(* the guard on the inputs implies the guard on the pairing *)
+Lemma uniq_pairs_unrep H c rep pairs t1 : uniq_items H c rep t1 = true -> forall p1, pairs_unrep H c rep pairs t1 p1.
+Proof.
+  intros U p1 q zs R. revert p1 U. induction R as [xs|xs|xs i x q zs Ex R IH|xs i x q zs Ex R IH|kvs k v k' q zs Hin Ek R IH]; intros p1 U.
+  - destruct (uniq_list_inv H c rep xs (VList xs) (or_introl eq_refl) U) as [N _].
+    unfold level_ok. apply forallb_forall. intros ji _. unfold h1.
+    destruct (nth_error (map (hv H c rep) xs) (snd ji)) as [r|] eqn:E; [|reflexivity].
+    apply Nat.eqb_eq. apply nodup_h_count; [exact N | eapply nth_error_In; exact E].
+  - destruct (uniq_list_inv H c rep xs (VTuple xs) (or_intror eq_refl) U) as [N _].
+    unfold level_ok. apply forallb_forall. intros ji _. unfold h1.
+    destruct (nth_error (map (hv H c rep) xs) (snd ji)) as [r|] eqn:E; [|reflexivity].
+    apply Nat.eqb_eq. apply nodup_h_count; [exact N | eapply nth_error_In; exact E].
+  - destruct (uniq_list_inv H c rep xs (VList xs) (or_introl eq_refl) U) as [_ Ux].
+    replace (p1 ++ PIdx i :: q) with ((p1 ++ [PIdx i]) ++ q) by (rewrite <- app_assoc; reflexivity).
+    apply IH. apply Ux. eapply nth_error_In; exact Ex.
+  - destruct (uniq_list_inv H c rep xs (VTuple xs) (or_intror eq_refl) U) as [_ Ux].
+    replace (p1 ++ PIdx i :: q) with ((p1 ++ [PIdx i]) ++ q) by (rewrite <- app_assoc; reflexivity).
+    apply IH. apply Ux. eapply nth_error_In; exact Ex.
+  - replace (p1 ++ PKey k' :: q) with ((p1 ++ [PKey k']) ++ q) by (rewrite <- app_assoc; reflexivity).
+    apply IH. apply (uniq_dict_inv H c rep kvs U (k, v) Hin).
+Qed.
+
+Theorem io_guard_pairs_unrep H c rep pairs t1 :
+  ((forall p, pairs p = []) \/ uniq_items H c rep t1 = true) -> pairs_unrep H c rep pairs t1 [].
+Proof.
+  intros [E|U]; [|apply uniq_pairs_unrep; exact U]. intros q zs _. rewrite E. reflexivity.
 Qed.
